@@ -257,13 +257,8 @@ func cmdCheck(args []string) int {
 			if si >= maxSamplesPerRun {
 				break
 			}
-			vec, _ := smp["one_model_of_path_condition"]
-			var obs []string
-			if o, ok := smp["observed"].([]interface{}); ok {
-				for _, x := range o {
-					obs = append(obs, fmt.Sprint(x))
-				}
-			}
+			vec := smp.Vector
+			obs := smp.Observed
 			name := fmt.Sprintf("%s-%s-sample%d", prop, r.harness, si)
 			if r.params != "" {
 				name += "-" + sanitize(r.params)
